@@ -57,6 +57,23 @@ try:
         if repo.is_in_write_group():
             verdict(True, "a failing abort left the repository stuck inside the write group")
         repo._pack_collection._abort_write_group()
+    # the pack's own abort fails (error suppressed by the caller): what was written in the group must still stop being visible
+    with repo.lock_write():
+        keys_before = set(repo.texts.keys())
+        repo.start_write_group()
+        write_something(repo, b"k-failing-abort")
+        pack = repo._pack_collection._new_pack
+        real_abort = pack.abort
+
+        def abort_then_fail():
+            real_abort()
+            raise RuntimeError("injected failure while cleaning the upload directory")
+        pack.abort = abort_then_fail
+        repo.abort_write_group(suppress_errors=True)
+        leaked = set(repo.texts.keys()) - keys_before
+        if leaked:
+            verdict(True, "keys written in an aborted write group are still visible through the repository object after the pack's abort failed",
+                    observed=str(sorted(leaked)))
     # suspend publishes nothing; resume + commit publishes
     with repo.lock_write():
         repo.start_write_group()
